@@ -469,3 +469,8 @@ package main
 //@   ghost sel int = 0 - 1
 //@   at select#1: set sel = $index
 //@   ensures sel == 0 ==> result0 == 0
+
+// The pattern GetAPIToken's contract relies on: after the scheme and the
+// white space the WHOLE rest of the header value is the token (no character
+// class that could cut a token short).
+//@ lemma authPattern property C07: regexliteral(authRe) == "^(OAuth2|Bearer)\\s+(.*)"
